@@ -59,6 +59,8 @@ class HeapMixin:
 
     def getattr_(self, v, attr, frame=None):
         run = self.run
+        if isinstance(v, VSuper):
+            return self.super_getattr(v, attr)
         if isinstance(v, VRef):
             if v.kind == "obj":
                 rec = run.rec(v.oid)
